@@ -123,6 +123,17 @@ Theorem C16_slab_ranges_disjoint : forall T s,
 Proof. exact slab_ranges_disjoint. Qed.
 Print Assumptions C16_slab_ranges_disjoint.
 
+(* Slab.build(): BatchedBufferStager(dict(zip(byte_ranges, stagers))) - the constructor's contiguity check accepts
+   every slab batch_write produces, its slab_sz_bytes is the slab size, its stagers are members of the slab and
+   include every member with a non-empty range (members sharing an EMPTY range collapse to one dict entry). *)
+Theorem C16_slab_build : forall T s,
+  good_slab T s ->
+  exists d, slab_build s = Some (slab_sz s, d)
+            /\ (forall m, In m s -> m_lo m < m_hi m -> In (m_range m, m_path m) d)
+            /\ (forall k v, In (k, v) d -> exists m, In m s /\ m_range m = k /\ m_path m = v).
+Proof. exact slab_build_good. Qed.
+Print Assumptions C16_slab_build.
+
 (* ------------------------------------------------------------------ BatchedBufferStager.stage_buffer *)
 (* Members (lo, hi, buffer) with consecutive ranges from 0 to the slab size, each buffer of its declared length,
    staged in ANY completion order: staging succeeds, the slab has the declared size, and the slab holds every
@@ -195,6 +206,16 @@ Theorem C16_write_then_read_plan : forall T (ws : list went) slabs pass reloc st
     /\ (forall b, In (e_path e, b) (exec_plan store (batch_read rreqs)) -> b = e_buf e).
 Proof. exact write_then_read_plan. Qed.
 Print Assumptions C16_write_then_read_plan.
+
+(* The slab hypothesis of C16_write_then_read_plan is what the code does: stage the stagers held by the
+   BatchedBufferStager (slab_build's dict) in any completion order and write the result under the slab's path. *)
+Theorem C16_slab_stored_of_build : forall T ws store k ms sz d order slab,
+  good_slab T ms -> slab_build ms = Some (sz, d) ->
+  Permutation (map (staged_entry ws) d) order ->
+  stage_slab sz order = Some slab -> lookup store (slab_path k) = Some slab ->
+  slab_stored ws store k ms.
+Proof. exact slab_stored_of_build. Qed.
+Print Assumptions C16_slab_stored_of_build.
 
 (* ------------------------------------------------------------------ tie to the source text *)
 (* gen/ChunkGen.v is regenerated from /repo on every run by translator/gen_chunk.py (fail closed) and holds the
